@@ -164,6 +164,9 @@ func (h *inFlightRequestsHandler) borrowStreamId() (int16, error) {
 }
 
 func (h *inFlightRequestsHandler) releaseStreamId(id int16) error {
+	// close() closes the pool while holding the write lock
+	h.inFlightLock.RLock()
+	defer h.inFlightLock.RUnlock()
 	if h.isClosed() {
 		return fmt.Errorf("%v: handler closed", h)
 	}
@@ -192,10 +195,10 @@ func (h *inFlightRequestsHandler) close() {
 			delete(h.inFlight, streamId)
 			inFlight.close(fmt.Errorf("%v: handler closed", h))
 		}
-		h.inFlightLock.Unlock()
 		streamIds := h.streamIds
 		h.streamIds = nil
 		close(streamIds)
+		h.inFlightLock.Unlock()
 		log.Trace().Msgf("%v: successfully closed", h)
 	}
 }
